@@ -21,6 +21,7 @@ type C07Case struct {
 	Ctx    string   `json:"ctx"`
 	Patch  string   `json:"patch"`
 	File   string   `json:"file"`
+	Real   bool     `json:"real,omitempty"`  // run through the real binary only (families whose subject is the process's exit path)
 	Header string   `json:"header"`          // file variant: plain | generated | imports
 	Flags  []string `json:"flags"`           // [] | --diff | --print-only (+ --skip-import-processing) ; ["API"]
 	Multi  []string `json:"multi,omitempty"` // several targets in one run: file kinds in path order
@@ -31,9 +32,37 @@ var c07MultiKinds = map[string]string{
 	"fits-short": "package p\n\nvar v = hole(1)\n",
 	"misfit":     "package p\n\nfunc m(v T) {\n\tif hole(v) {\n\t}\n}\n",
 	"nomatch":    "package p\n\nfunc n() {}\n",
+	"fits-big":   c07BigFile(),
+}
+
+// c07BigFile: a file whose patched text is several buffers long (about 12 KB)
+func c07BigFile() string {
+	var b strings.Builder
+	b.WriteString("package p\n")
+	for i := 0; i < 160; i++ {
+		fmt.Fprintf(&b, "\nfunc big%03d() bool {\n\treturn hole(aVeryLongArgumentName%03d)\n}\n", i, i)
+	}
+	return b.String()
 }
 
 const c07MultiPatch = "@@\nvar x expression\n@@\n-hole(x)\n+x == T{}\n"
+
+var c07SoloCache = map[string]string{}
+
+// c07Solo: the bytes the default mode writes for one file kind processed alone (real binary; cached per worker).
+func c07Solo(env *core.Env, kind string) string {
+	if s, ok := c07SoloCache[kind]; ok {
+		return s
+	}
+	sb := newSandbox(env, "c07solo", map[string]string{"v.patch": c07MultiPatch, "t/s.go": c07MultiKinds[kind]})
+	defer sb.remove()
+	r := sb.run(true, "t", []string{"-p", sb.path("v.patch"), "s.go"}, "")
+	if r.Exit != 0 || r.Panic != "" {
+		panic("harness: solo run of " + kind + " failed: " + r.Stderr + r.Panic)
+	}
+	c07SoloCache[kind] = sb.read("t/s.go")
+	return c07SoloCache[kind]
+}
 
 // c07RunMulti: several targets in one run; whatever is on disk (or implied by the diff) afterwards parses, a file
 // whose rewrite does not parse is byte-identical, and the run reports a failure iff some file misfits.
@@ -72,9 +101,33 @@ func c07RunMulti(env *core.Env, c *C07Case) core.Outcome {
 				diffs[d.Old] = d
 			}
 		}
+		rest := r.Stdout
 		for i, k := range c.Multi {
 			orig := c07MultiKinds[k]
 			got := sb.read("t/" + names[i])
+			if contains(c.Flags, "--print-only") {
+				// stdout = per file, in order: the patched text of a file that fits; the original of one that is unmatched
+				// or failed, or nothing for a failed one
+				if got != orig {
+					return bad("dryrun-wrote", "--print-only modified %s", names[i])
+				}
+				want := orig
+				if strings.HasPrefix(k, "fits") {
+					want = c07Solo(env, k) // what the default mode writes for this file alone
+				}
+				switch {
+				case strings.HasPrefix(rest, want):
+					rest, got = rest[len(want):], want
+				case k == "misfit":
+					// nothing printed for the failed file
+				default:
+					return bad("print-truncated-or-wrong", "--print-only: the output for %s (%s) is not its complete text; remaining stdout starts %q (total %d bytes)", names[i], k, firstN(rest, 120), len(r.Stdout))
+				}
+				if perr := parses(got); perr != nil && k != "misfit" {
+					return bad("unparseable-emitted", "%s (%s): printed text does not parse (%v)", names[i], k, perr)
+				}
+				continue
+			}
 			if contains(c.Flags, "--diff") {
 				if got != orig {
 					return bad("dryrun-wrote", "--diff modified %s", names[i])
@@ -100,7 +153,13 @@ func c07RunMulti(env *core.Env, c *C07Case) core.Outcome {
 				}
 			}
 		}
+		if contains(c.Flags, "--print-only") && rest != "" {
+			return bad("print-truncated-or-wrong", "--print-only printed more than the files' texts: %q", firstN(rest, 200))
+		}
 		return o
+	}
+	if c.Real {
+		return judge(true)
 	}
 	return believeIfReal(judge)
 }
@@ -140,6 +199,8 @@ func c07Header(variant, src string) string {
 		return strings.Replace(src, "package p\n", "package p\n\n/*\n#include <stdio.h>\n*/\nimport \"C\"\n", 1)
 	case "one-import":
 		return strings.Replace(src, "package p\n", "package p\n\nimport \"os\"\n", 1)
+	case "long-line": // a line longer than the largest default buffer of the standard library (64 KiB)
+		return src + "\nvar blob = \"" + strings.Repeat("x", 70000) + "\"\n"
 	}
 	return src
 }
@@ -157,9 +218,21 @@ func c07Gen(tier string, emit func(any)) {
 			emit(&C07Case{Family: "multi", Multi: sq, Flags: fl})
 		}
 	}
+	// outputs longer than a buffer, with a failing file in the run, through the real binary (its exit path flushes)
+	for _, sq := range seqs([]string{"fits-big", "misfit", "fits-short"}, 3) {
+		if len(sq) < 2 || !contains(sq, "fits-big") {
+			continue
+		}
+		for _, fl := range [][]string{{"--print-only"}, {"--diff"}, {}} {
+			emit(&C07Case{Family: "multi", Multi: sq, Flags: fl, Real: true})
+		}
+	}
 	emitAll := func(family, repl, ctx, patch, src string) {
-		for _, h := range []string{"plain", "generated", "imports", "cgo", "one-import"} {
+		for _, h := range []string{"plain", "generated", "imports", "cgo", "one-import", "long-line"} {
 			if (h == "cgo" || h == "one-import") && tier != "thorough" && family != "hole-call" {
+				continue
+			}
+			if h == "long-line" && (family != "hole-call" || ctx != "if-cond" && ctx != "call-arg") {
 				continue
 			}
 			if h != "plain" && !strings.HasPrefix(src, "package p\n") {
